@@ -217,6 +217,45 @@ func c12Grid(ctx *core.Ctx, smsize uint32, sdotu bool, thorough bool) core.Resul
 			}
 		}
 	}
+	// the dialect is decided by each Tversion on its own: what an earlier Tversion on the connection asked for does
+	// not stick (a client that probes with one version string and settles on another)
+	if eff >= 256 {
+		asks := []string{"9P2000", "9P2000.u", "9P1999", "9P2000.L"}
+		var seqs [][]string
+		for _, a := range asks {
+			for _, b := range asks {
+				seqs = append(seqs, []string{a, b})
+				if a != b {
+					seqs = append(seqs, []string{a, b, a}, []string{a, a, b})
+				}
+			}
+		}
+		for _, seq := range seqs {
+			c := s.Dial()
+			res.Evals++
+			det := map[string]interface{}{"server_msize": eff, "server_dotu": sdotu, "versions_in_turn": seq}
+			for i, ask := range seq {
+				rep, err := c.Version(eff, ask, W)
+				if err != nil || rep.Msg == nil || rep.Msg.Type != wire.Rversion {
+					res.Violate("C12;renegotiated-dialect;no-rversion", fmt.Sprintf("Tversion %q (number %d on the connection, after %v) got %v / %v", ask, i+1, seq[:i], rep, err), det)
+					break
+				}
+				want := "9P2000"
+				if ask == "9P2000.u" && sdotu {
+					want = "9P2000.u"
+				}
+				if rep.Msg.Version != want {
+					res.Violate(fmt.Sprintf("C12;renegotiated-dialect;version;asked=%s;got=%s", ask, rep.Msg.Version), fmt.Sprintf("Tversion %q after %v on the same connection was answered %q; a server that offers .u=%v answers %q", ask, seq[:i], rep.Msg.Version, sdotu, want), det)
+					break
+				}
+				if i == len(seq)-1 || i == 0 {
+					c12Session(ctx, &res, s, c, eff, want == "9P2000.u", det)
+				}
+			}
+			res.Sig(fmt.Sprintf("redialect|%d|%v|%s", eff, sdotu, strings.Join(seq, ">")))
+			c.Hangup()
+		}
+	}
 	res.Sample(map[string]interface{}{"server_msize": eff, "server_dotu": sdotu, "client_msizes": cms, "versions": len(versions)})
 	return res
 }
